@@ -20,7 +20,9 @@ import (
 	"github.com/wundergraph/graphql-go-tools/v2/pkg/ast"
 	"github.com/wundergraph/graphql-go-tools/v2/pkg/astnormalization"
 	"github.com/wundergraph/graphql-go-tools/v2/pkg/astparser"
+	"github.com/wundergraph/graphql-go-tools/v2/pkg/astprinter"
 	"github.com/wundergraph/graphql-go-tools/v2/pkg/astvalidation"
+	"github.com/wundergraph/graphql-go-tools/v2/pkg/operationreport"
 )
 
 func init() { props["C04"] = runC04 }
@@ -526,6 +528,39 @@ type c04Worker struct {
 	universe *fedUniverse
 	layout   *fedLayout
 	shared   *c03Tools
+	// the same without operation-name filtering (NormalizeOperation): its first walker stage is the one that carries
+	// the fragment-cycle visitor
+	sharedAnon *astnormalization.OperationNormalizer
+}
+
+func c04NewAnon() *astnormalization.OperationNormalizer {
+	return astnormalization.NewWithOpts(astnormalization.WithRemoveFragmentDefinitions(), astnormalization.WithRemoveUnusedVariables(), astnormalization.WithInlineFragmentSpreads())
+}
+
+func c04NormalizeAnon(n *astnormalization.OperationNormalizer, def *ast.Document, op string, vars []byte) (printed string, errText string) {
+	defer func() {
+		if r := recover(); r != nil {
+			errText = fmt.Sprintf("PANIC: %v", r)
+		}
+	}()
+	doc, rep := astparser.ParseGraphqlDocumentString(op)
+	if rep.HasErrors() {
+		return "", "parse"
+	}
+	if len(vars) == 0 {
+		vars = []byte("{}")
+	}
+	doc.Input.Variables = append([]byte{}, vars...)
+	var report operationreport.Report
+	n.NormalizeOperation(&doc, def, &report)
+	if report.HasErrors() {
+		return "", report.Error()
+	}
+	out, err := astprinter.PrintString(&doc)
+	if err != nil {
+		return "", err.Error()
+	}
+	return out, ""
 }
 
 func newC04Worker() (*c04Worker, error) {
@@ -537,7 +572,7 @@ func newC04Worker() (*c04Worker, error) {
 	if err != nil {
 		return nil, err
 	}
-	return &c04Worker{eng: eng, universe: fedL1Universe(rand.New(rand.NewSource(7))), layout: layouts["L1"], shared: newC03Tools()}, nil
+	return &c04Worker{eng: eng, universe: fedL1Universe(rand.New(rand.NewSource(7))), layout: layouts["L1"], shared: newC03Tools(), sharedAnon: c04NewAnon()}, nil
 }
 
 // the real thing: ExecutionEngine.Execute rejects before planning, or executes
@@ -615,6 +650,20 @@ func c04CheckWith(run *Run, c *c04Case, w *c04Worker) {
 		if (fresh.Err == "") != (reused.Err == "") || fresh.Printed != reused.Printed {
 			run.Violate(Violation{Kind: "oracle", Clause: "no_state_between_documents", Input: in, Impl: reused, Model: fresh,
 				Detail: fmt.Sprintf("a reused normalizer says %q / %s; a fresh one says %q / %s", reused.Err, truncate(reused.Printed, 300), fresh.Err, truncate(fresh.Printed, 300))}, "")
+		}
+	}
+	if def, err := c03Definition(); err == nil {
+		for _, doc := range []string{c.Operation, c.Original} {
+			if doc == "" {
+				continue
+			}
+			fp, fe := c04NormalizeAnon(c04NewAnon(), def, doc, c.Variables)
+			rp, re := c04NormalizeAnon(w.sharedAnon, def, doc, c.Variables)
+			if (fe == "") != (re == "") || fp != rp {
+				run.Violate(Violation{Kind: "oracle", Clause: "no_state_between_documents", Input: in, Impl: map[string]string{"printed": rp, "error": re}, Model: map[string]string{"printed": fp, "error": fe},
+					Detail: fmt.Sprintf("NormalizeOperation on a reused normalizer says about %s: %q / %s; on a fresh one: %q / %s", truncate(doc, 300), re, truncate(rp, 300), fe, truncate(fp, 300))}, "")
+				break
+			}
 		}
 	}
 	// … also right after it was stopped in the middle of a document: the unmutated original comes next
